@@ -2,7 +2,7 @@
    Statements only; proofs in Proofs/StatusIndep.v, Proofs/C15Proof.v. *)
 From Coq Require Import List ZArith QArith Bool Arith.
 From PV Require Import Model.Types Model.Sim Model.Example Proofs.Base Proofs.RunLemmas
-  Proofs.StatusIndep Proofs.C13Proof Proofs.C15Proof Proofs.C15Stable.
+  Proofs.StatusIndep Proofs.C12Proof Proofs.C13Proof Proofs.C15Proof Proofs.C15Stable Proofs.PertStable Proofs.C15Run.
 Import ListNotations.
 Open Scope nat_scope.
 
@@ -50,6 +50,43 @@ Theorem C15_pause_resume_pert : forall c o s k m, k <= m -> Forest c ->
   fst (simulate c (resume_opts o m) paused) = fst (simulate c (with_max o m) s).
 Proof. intros c o s k m. exact (pause_resume_pert c o s k m). Qed.
 Print Assumptions C15_pause_resume_pert.
+
+(* the PERT refresh is idempotent on its own result for EVERY acyclic network
+   (dag c rank: lists mirror each other, ids in range, rank increases along
+   every edge), ANY mix of the four dependency kinds and ANY state in which no
+   task has negative remaining work: two runs of the frontier iteration are
+   compared in lock step; the only value one of them could read stale -- the
+   earliest finish of a task whose first relaxation fails -- is never read *)
+Theorem C15_pert_refresh_idempotent : forall c rank, dag c rank -> forall (tm : nat) (x : pstate),
+  (forall v, v < nT c -> (0 <= rem (td x v))%Q) ->
+  let u := update_pert c tm x in update_pert c tm u = u.
+Proof. exact pert_refresh_idempotent. Qed.
+Print Assumptions C15_pert_refresh_idempotent.
+
+(* hence: for every acyclic model, every pause step and every final max_time,
+   the resumed run is the uninterrupted run, provided no task has negative
+   remaining work at the `updated` snapshots of the uninterrupted run (a task
+   has negative remaining work only while it is held WORKING by an unfinished
+   FF / unstarted SF predecessor after overshooting its work) *)
+Theorem C15_pause_resume_acyclic : forall c rank o s k m, k <= m -> dag c rank -> Forest c ->
+  (o_init_state o = true \/ PInv s) ->
+  Forall (fun ob : obs => snd (fst ob) = PUpdated -> forall v, v < nT c -> (0 <= rem (td (snd ob) v))%Q)
+         (snd (simulate c (with_max o m) s)) ->
+  let paused := fst (simulate c (with_max o k) s) in
+  fst (simulate c (resume_opts o m) paused) = fst (simulate c (with_max o m) s).
+Proof. intros c rank o s k m. exact (pause_resume_dag c rank o s k m). Qed.
+Print Assumptions C15_pause_resume_acyclic.
+
+(* and unconditionally for finish-to-start networks (any resources, rules,
+   absences, components): remaining work is never negative at an `updated`
+   snapshot there (C12's run invariant) *)
+Theorem C15_pause_resume_finish_to_start : forall c rank o s k m, k <= m -> fs_dag c rank -> 0 < nT c -> Forest c ->
+  (forall t, t < nT c -> (0 <= t_work c t)%Q /\ (0 <= t_progress c t <= 1)%Q) ->
+  o_init_state o = true ->
+  let paused := fst (simulate c (with_max o k) s) in
+  fst (simulate c (resume_opts o m) paused) = fst (simulate c (with_max o m) s).
+Proof. intros c rank o s k m. exact (pause_resume_fs c rank o s k m). Qed.
+Print Assumptions C15_pause_resume_finish_to_start.
 
 (* no phase reads project.status, which is the only field in which the state
    returned by the paused run differs from the uninterrupted loop state *)
